@@ -10,12 +10,13 @@ pub mod c01;
 pub mod c02;
 pub mod c03;
 pub mod c04;
+pub mod c09;
 pub mod c11;
 pub mod c12;
 pub mod c14;
 
 pub fn all() -> Vec<Box<dyn Scenario>> {
-    vec![Box::new(c01::C01), Box::new(c02::C02), Box::new(c03::C03), Box::new(c04::C04), Box::new(c11::C11), Box::new(c12::C12), Box::new(c14::C14)]
+    vec![Box::new(c01::C01), Box::new(c02::C02), Box::new(c03::C03), Box::new(c04::C04), Box::new(c09::C09), Box::new(c11::C11), Box::new(c12::C12), Box::new(c14::C14)]
 }
 
 pub fn by_id(id: &str) -> Option<Box<dyn Scenario>> {
@@ -37,6 +38,21 @@ pub fn fill_common(rep: &mut CaseReport, res: &SessionResult, world: &World) {
     rep.sim_ns = fin.sim_ns;
     rep.steps = fin.stats.steps;
     rep.text = fin.text.clone();
+    if !rep.text.is_empty() {
+        rep.text.push("---- client history (invoke..return stamps)".to_string());
+        for c in &res.hist.conn {
+            rep.text.push(format!("conn {:?}", c).chars().take(300).collect());
+        }
+        for o in &res.hist.ops {
+            let r: String = format!("{:?}", o.result).chars().take(160).collect();
+            rep.text.push(format!("t{} #{} ch{} [{}..{}] {} -> {}", o.thread, o.idx, o.ch_id, o.invoke, o.ret, crate::expect::short_op(&o.op), r));
+        }
+        rep.text.push("---- broker sent (stamp, s2c range)".to_string());
+        for s in &world.broker.sent {
+            let k: String = format!("{:?}", s.kind).chars().take(140).collect();
+            rep.text.push(format!("[{}] {}..{} {}", s.stamp, s.s2c_start, s.s2c_end, k));
+        }
+    }
     rep.batch_sigs = fin.stats.poll_batch_sigs.clone();
     let n = world.net.lock().unwrap();
     let s = &n.stats;
